@@ -267,7 +267,7 @@ def mergeFields (S : Schema) (fuel : Nat) (fields : List FieldDesc) : Nat → Na
           else next (setSlot es i (.rep 0 none)) (setSlot ls i (.rep ne ea))
         else next es ls
       | _, _ => next es ls
-    else if fi.label == .optional || fi.label == .none then
+    else if fi.label == .optional || fi.label == .none || (fi.label == .required && fi.type == .message) then
       let ecase := qRead fi (getSlot es i)
       let lcase := qRead fi (getSlot ls i)
       let sel : Option (Option Nat) :=          -- none = return FALSE; some none = continue
